@@ -23,6 +23,11 @@ def unclamped_uniform(p, n):
     return [F(i) for i in range(n + p + 1)]
 
 
+def unclamped_unit(p, n):
+    """uniform unclamped knot vector scaled so that the domain [K[p], K[n]] is [0, 1]"""
+    return [F(i - p, n - p) for i in range(n + p + 1)]
+
+
 def kq_patterns(p):
     """quick family of interior multiplicity patterns for degree p"""
     pats = [(), (1,), (1, 1), (p,)]
